@@ -1086,6 +1086,7 @@ impl Planner {
             .map(|(p, v)| (p.as_str(), v.clone()))
             .collect();
         let mut matching_nodes = self.store.find_nodes_by_properties(&conditions_ref);
+        self.retain_visible_nodes(&mut matching_nodes);
 
         // If there's a label filter, also filter by label
         if let Some(label) = &scan_label {
@@ -1240,6 +1241,17 @@ impl Planner {
         Ok(None)
     }
 
+    /// Keeps only the nodes visible in this planner's transaction context: the property
+    /// indexes and range lookups are not versioned, the scan operators they replace are.
+    fn retain_visible_nodes(&self, nodes: &mut Vec<grafeo_common::types::NodeId>) {
+        let tx = self.tx_id.unwrap_or(TxId::SYSTEM);
+        nodes.retain(|n| {
+            self.store
+                .get_node_versioned(*n, self.viewing_epoch, tx)
+                .is_some()
+        });
+    }
+
     /// Plans a range filter using `find_nodes_in_range`.
     fn plan_range_filter(
         &self,
@@ -1256,6 +1268,7 @@ impl Planner {
             bounds.min_inclusive,
             bounds.max_inclusive,
         );
+        self.retain_visible_nodes(&mut matching_nodes);
 
         // If there's a label filter, also filter by label
         if let Some(label) = scan_label {
